@@ -35,8 +35,8 @@ CASE_TIMEOUT = {'quick': 300, 'thorough': 600}
 
 
 def plan(tier, seed):
-    n = 140 if tier == 'quick' else 1500
-    kinds = ['mesh', 'mesh', 'eol', 'long', 'raman', 'mesh', 'eol', 'gain', 'p2p', 'mesh']
+    n = 168 if tier == 'quick' else 1500
+    kinds = ['mesh', 'mesh', 'eol', 'long', 'raman', 'mesh', 'eol', 'gain', 'p2p', 'mesh', 'raman', 'long']
     cases = [{'idx': i, 'kind': kinds[i % len(kinds)]} for i in range(n)]
     # dedicated cases that reproduce a listed finding (gain mode, automatic type, saturating operator gain, input VOA)
     return cases + [{'idx': n, 'kind': 'kf-invoa-gain'}, {'idx': n + 1, 'kind': 'kf-invoa-gain'},
@@ -131,11 +131,12 @@ def build_inputs(rng, kind):
     G.vary_span_si(rng, ej, allow_eol=(kind == 'eol'), power_mode=False if kind == 'gain' else None)
     if kind == 'eol':
         ej['Span'][0]['EOL'] = G.pick(rng, [0.5, 1.0, 1.5])
-    if rng.random() < 0.3:
+    if rng.random() < (0.6 if kind == 'raman' else 0.3):
         # amplifier types whose output VOA is chosen by the design (no stock library entry has it): the saved design
         # then carries a VOA and an offset that the redesign must reproduce
         for e in ej['Edfa']:
-            if e['type_variety'] in ('std_medium_gain', 'std_low_gain', 'std_high_gain') and rng.random() < 0.7:
+            if e['type_variety'] in ('std_medium_gain', 'std_low_gain', 'std_high_gain') and \
+                    rng.random() < (0.9 if kind == 'raman' else 0.7):
                 e['out_voa_auto'] = True
     raman_net = kind == 'raman'
     if kind == 'kf-multiband-srs':
